@@ -162,10 +162,12 @@ def thick_map(case, r):
         idx, amb = columns(nz, xs, ys)
         verdicts.append((nz, idx, amb))
     problems = None
+    matched = verdicts[0]
     for nz, idx, amb in verdicts:
         prob = _judge(case, r, p, m, u, v, idx, amb, dzw / nz, fpos, d)
         if prob is None:
             problems = None
+            matched = (nz, idx, amb)          # the depth resolution osyris used: its face samples are the undecided ones
             break
         problems = prob
     inside = verdicts[0][1] >= 0
@@ -182,7 +184,7 @@ def thick_map(case, r):
     if case.get("schedule"):
         # any thread schedule: other thread counts and a permuted cell order give the same columns
         r.label("schedule_checked")
-        judged = ~verdicts[0][2].any(axis=0)
+        judged = ~matched[2].any(axis=0)
         perm = np.random.RandomState(case["mesh"]["seed"]).permutation(m.n)
         dg2 = dg[perm]
         lkw = {"operation": case["op"]} if case.get("op_at") == "layer" else {}
